@@ -211,9 +211,11 @@ func (p PowerBasis) WriteTo(w io.Writer) (n int64, err error) {
 
 		n += inc
 
-		inc, err = p.Value.WriteTo(w)
+		if inc, err = p.Value.WriteTo(w); err != nil {
+			return n + inc, err
+		}
 
-		return n + inc, err
+		return n + inc, w.Flush()
 
 	default:
 		return p.WriteTo(bufio.NewWriter(w))
